@@ -25,6 +25,8 @@ Verdict(t, i) ==
      ELSE IF Which = "C05" THEN FailedCV(CaseOf(t), s, nm # "input")
      ELSE IF Which = "C06" THEN FailedTables(s.H)
      ELSE IF Which = "C16" THEN FailedViews(StageOf(t, i).hook, s)
+     ELSE IF Which = "C17" THEN FailedDrawing(StageOf(t, i).hook.scfg, s)
+                                \cup (IF "bf" \in DOMAIN StageOf(t, i).hook THEN {"ByteFlowRenderer/" \o c : c \in FailedDrawing(StageOf(t, i).hook.bf, s)} ELSE {})
      ELSE IF Which = "C03" THEN (IF nm = "branches" THEN FailedST(CaseOf(t), s) ELSE {})
      ELSE {"unknown-family"}
 
